@@ -9,6 +9,7 @@ import (
 	"os"
 	"path/filepath"
 	"strings"
+	"syscall"
 	"time"
 
 	"verif/harness/filterchk"
@@ -240,6 +241,13 @@ func sessionC08(r *vk.Run, rng *rand.Rand, bin string, wkr, idx int) {
 			w["fresh_filter_count"] = len(want)
 			w["fresh_filter_head"] = head(want, 8)
 			w["first_difference"] = firstDiff(got, want)
+			w["trace_tail"] = traceLines(s, 120)
+			if r.Counter("stuck_loading_states") > 0 {
+				// the interface never left the loading state: take a goroutine dump for the witness
+				s.Signal(syscall.SIGQUIT)
+				s.WaitExit(3 * time.Second)
+				w["goroutine_dump"] = clipDump(s.Stderr())
+			}
 			r.Violate(vk.Violation{Key: key, Summary: fmt.Sprintf("C08: after %q the list shows %d matches for query %q, a fresh filter of the loaded input gives %d (first difference at %d); history kinds %v",
 				hist[len(hist)-1].Post, st.MatchCount, st.Query, len(want), firstDiff(got, want), keysOf(kinds)), Witness: w})
 			return
@@ -449,4 +457,25 @@ func min(a, b int) int {
 		return a
 	}
 	return b
+}
+
+func traceLines(s *tty.Session, n int) []string {
+	var out []string
+	for _, e := range s.Trace() {
+		if e.Kind == "scan.chunk" || e.Kind == "scan.count" {
+			continue
+		}
+		out = append(out, fmt.Sprintf("%d %s(%d,%d,%s)", e.TUs/1000, e.Kind, e.A, e.B, e.S))
+	}
+	if len(out) > n {
+		out = out[len(out)-n:]
+	}
+	return out
+}
+
+func clipDump(d string) string {
+	if len(d) > 30000 {
+		return d[:30000]
+	}
+	return d
 }
